@@ -231,7 +231,7 @@ Proof.
   unfold spec_toks. destruct (spdx_tokens_ok lics excs (spdx_tokens s)); [|discriminate]. intros H.
   destruct (canon_tokens_shape _ _ _ H) as [A B]. split; [|split].
   - apply ascii_kfree. now apply tight_ascii.
-  - unfold spdx_tokens. now apply retokenise.
+  - rewrite spdx_tokens_split. now apply retokenise.
   - now apply canon_tokens_same_words with false.
 Qed.
 Theorem canon_idempotent s o : kfree s -> (canon lics excs s = Ok o \/ canon lics excs s = Limit o) -> canon lics excs o = canon lics excs s.
@@ -279,7 +279,7 @@ Proof.
   intros Q B c H. destruct (is_ws c) eqn:W; [now right|left].
   destruct (split_raw_cover (pad s) c (pad_keeps c s H) W) as (w & Hw & Hc).
   assert (Tw : In w (spdx_tokens s)).
-  { unfold spdx_tokens, split_ws. apply filter_In. split; [exact Hw|]. destruct w; [destruct Hc|reflexivity]. }
+  { rewrite spdx_tokens_split. unfold split_ws. apply filter_In. split; [exact Hw|]. destruct w; [destruct Hc|reflexivity]. }
   destruct (Forall2_in_left _ _ _ _ Q Tw) as (o & Ho & [E _]).
   rewrite Forall_forall in B. specialize (B _ Ho).
   assert (A : forallb asciib (afold w) = true).
